@@ -84,6 +84,7 @@ func genCase(t *rapid.T) Case {
 		}
 		c.Pipelined = rapid.Bool().Draw(t, "pipelined")
 	}
+	c.TLS = c.PwKind != "truncated" && c.PwKind != "eof" && rapid.IntRange(0, 5).Draw(t, "inside-tls") == 3
 	if rapid.IntRange(0, 3).Draw(t, "segmented?") == 0 {
 		c.Segs = gen.Segments().Draw(t, "segs")
 	}
